@@ -129,6 +129,9 @@ type Spec struct {
 	Union    string      `json:"union"`    // text between %union { and }
 	Epilogue string      `json:"epilogue"` // text after the second %%
 	NoUnion  bool        `json:"nounion,omitempty"`
+	// OmitStart: write no %start line; only meaningful when the start symbol is
+	// literally named "start" (the documented default)
+	OmitStart bool `json:"omitstart,omitempty"`
 	Fields   []string    `json:"fields,omitempty"` // abstract union fields (integers)
 }
 
@@ -390,9 +393,11 @@ func (s *Spec) Render(o RenderOpts) string {
 		pn = append(pn, n)
 	}
 	flushN()
-	w("%start")
-	w(s.NTs[s.Start].Name)
-	nl()
+	if !(s.OmitStart && s.NTs[s.Start].Name == "start") {
+		w("%start")
+		w(s.NTs[s.Start].Name)
+		nl()
+	}
 	p("%%")
 	nl()
 	// rules: consecutive rules with the same lhs may be joined with '|'
